@@ -124,6 +124,11 @@ def main():
     rewrite("contract/system/voteresult.go", [
         (r"(?m)^(\t+)for k, v := range vr\.rmap \{$", r"\1for _, k := range simgo.Keys(vr.rmap) {\n\1\tv := vr.rmap[k]", -1)], simgo)
 
+    # the producer election period is a compiled-in constant (100 blocks): a seam for the ELECT world
+    rewrite("consensus/impl/dpos/bp/cluster.go", [
+        (r"(?m)^func getElectionPeriod\(\) types\.BlockNo \{\n\treturn electionPeriod\n\}$",
+         "func getElectionPeriod() types.BlockNo {\n\tif VerifElectionPeriod != 0 {\n\t\treturn VerifElectionPeriod\n\t}\n\treturn electionPeriod\n}", 1)])
+
     # SYNC world: inside a synctest bubble code takes no time, so the hash fetcher's timer (armed in the
     # same instant as the request) fires at exactly reqTime+timeout and the strict comparison, which in
     # real time is always true at that point (the timer fires late, never early), would be false forever.
